@@ -8,9 +8,9 @@ namespace Mdsort.Proofs.World
 open Mdsort Mdsort.Model
 
 /-- `maildir_close` under every fault plan keeps what an error-free processing established. -/
-theorem DoneV.closeStdin {S : Spool} {env : PEnv} {input : Bytes} {v : Verdict} {w : World} (h : DoneV S env input v w)
+theorem DoneV.closeStdin {S : Spool} {env : PEnv} {input : Bytes} {v : Verdict} {w : World} (fuel : Nat) (h : DoneV S env input v w)
     (hd : ∃ snap pos, w.obj S.d = .dir S.sp snap pos) :
-    wp (fun _ => True) (Model.closeStdin (spoolMd S)) (fun _ w' => DoneV S env input v w') w := by
+    wp (fun _ => True) (Model.closeStdin fuel (spoolMd S)) (fun _ w' => DoneV S env input v w') w := by
   cases v with
   | failed => exact h.elim
   | unmatched => exact wp_mono wp_triv (fun _ _ _ => trivial)
@@ -18,7 +18,7 @@ theorem DoneV.closeStdin {S : Spool} {env : PEnv} {input : Bytes} {v : Verdict} 
     by_cases hyp : env.dryrun = false ∧ (∀ m ∈ ml, m.ty ≠ .discard) ∧ (∃ m ∈ ml, moveTy m.ty) ∧
         (∀ m ∈ ml, moveTy m.ty → destPath m.path ≠ some S.sp)
     · obtain ⟨p, n, fid, hp, hg⟩ := h hyp.1 hyp.2.1 hyp.2.2.1 hyp.2.2.2
-      exact wp_mono (closeStdin_keeps S hp hg hd) (fun _ w' hg' _ _ _ _ => ⟨p, n, fid, hp, hg'⟩)
+      exact wp_mono (closeStdin_keeps S hp fuel hg hd) (fun _ w' hg' _ _ _ _ => ⟨p, n, fid, hp, hg'⟩)
     · exact wp_mono wp_triv (fun _ _ _ h1 h2 h3 h4 => absurd ⟨h1, h2, h3, h4⟩ hyp)
 
 /-- `main` up to the cleanup, under every fault plan. -/
@@ -118,25 +118,30 @@ theorem stdin_spool_complete (env : PEnv) (input : Bytes) (w : World) (plan : Pl
     rw [hmd]
     exact hl
 
-/-- What exit status 0 of a stdin run means (see `Props/C02`). -/
+/-- What a verdict promises for the final world `wf` of a stdin run that ended with exit status 0. -/
+def DeliveredV (env : PEnv) (input : Bytes) (wf : World) : World.Verdict → Prop
+  | .failed => False
+  | .unmatched => True
+  | .actions ml m' =>
+    env.dryrun = false → NoDiscard ml → (∃ m ∈ ml, World.moveTy m.ty) →
+      (∀ m ∈ ml, World.moveTy m.ty → World.destPath m.path ≠ some (World.spoolPath env)) →
+      ∃ d n fid f, d ≠ World.spoolPath env ∧ wf.lookup d n = some fid ∧ wf.file fid = some f ∧
+        f.durable ∈ [input, (messageWrite m').1]
+
+/-- What exit status 0 of a stdin run means (see `Props/C02`): for the name the spool file got and for SOME answers `as` of the
+operating system to the questions of evaluation (the answers of the run; irrelevant for a rule tree that asks nothing), the
+verdict of the rules is not "failed", and if it is an action list that delivers, a durable complete copy exists outside the spool. -/
 def Delivered (env : PEnv) (orc : EvalOracles) (expr : Expr) (input : Bytes) (wf : World) : Prop :=
-  ∃ name0 fl, (∃ k, name0 = World.gennameName env none k) ∧ flagsParse name0 = some fl ∧
-    match World.stdinVerdict env orc expr input (World.spoolPath env ++ [47] ++ name0) fl with
-    | .failed => False
-    | .unmatched => True
-    | .actions ml m' =>
-      env.dryrun = false → NoDiscard ml → (∃ m ∈ ml, World.moveTy m.ty) →
-        (∀ m ∈ ml, World.moveTy m.ty → World.destPath m.path ≠ some (World.spoolPath env)) →
-        ∃ d n fid f, d ≠ World.spoolPath env ∧ wf.lookup d n = some fid ∧ wf.file fid = some f ∧
-          f.durable ∈ [input, (messageWrite m').1]
+  ∃ name0 fl as, (∃ k, name0 = World.gennameName env none k) ∧ flagsParse name0 = some fl ∧
+    DeliveredV env input wf (World.stdinVerdictA env orc expr input (World.spoolPath env ++ [47] ++ name0) fl as)
 
 theorem delivered_of_done {S : World.Spool} {env : PEnv} {orc : EvalOracles} {expr : Expr} {input name0 : Bytes} {w' : World}
     (hS : S.sp = World.spoolPath env) (hk : ∃ k, name0 = World.gennameName env none k)
     (h : World.Done S env orc expr input name0 w') : Delivered env orc expr input w' := by
-  obtain ⟨fl, hfl, hv⟩ := h
-  refine ⟨name0, fl, hk, hfl, ?_⟩
+  obtain ⟨fl, as, hfl, hv⟩ := h
+  refine ⟨name0, fl, as, hk, hfl, ?_⟩
   rw [hS] at hv
-  generalize World.stdinVerdict env orc expr input (World.spoolPath env ++ [47] ++ name0) fl = v at hv ⊢
+  generalize World.stdinVerdictA env orc expr input (World.spoolPath env ++ [47] ++ name0) fl as = v at hv ⊢
   cases v with
   | failed => exact hv
   | unmatched => trivial
@@ -144,6 +149,38 @@ theorem delivered_of_done {S : World.Spool} {env : PEnv} {orc : EvalOracles} {ex
     intro h1 h2 h3 h4
     obtain ⟨p, n, fid, hne, hl, _, f, hf, _, hd⟩ := hv h1 h2 h3 (by rw [hS]; exact h4)
     exact ⟨p, n, fid, f, by rw [← hS]; exact hne, hl, hf, hd⟩
+
+/-- The verdict delivers: an action list without discard, with a move/flag/flags action, no destination the spool. -/
+def DeliversV (env : PEnv) : World.Verdict → Prop
+  | .actions ml _ => NoDiscard ml ∧ (∃ m ∈ ml, World.moveTy m.ty) ∧
+      ∀ m ∈ ml, World.moveTy m.ty → World.destPath m.path ≠ some (World.spoolPath env)
+  | _ => False
+
+/-- If, WHATEVER the operating system answers, a verdict that is not "failed" delivers, then `Delivered` gives a durable copy
+outside the spool whose content is the message or a rewrite of it. -/
+theorem delivered_copy {env : PEnv} {orc : EvalOracles} {expr : Expr} {input : Bytes} {wf : World}
+    (hdry : env.dryrun = false)
+    (hall : ∀ name0 fl as, flagsParse name0 = some fl →
+      World.stdinVerdictA env orc expr input (World.spoolPath env ++ [47] ++ name0) fl as = .failed ∨
+      DeliversV env (World.stdinVerdictA env orc expr input (World.spoolPath env ++ [47] ++ name0) fl as))
+    (h : Delivered env orc expr input wf) :
+    ∃ d n fid f, d ≠ World.spoolPath env ∧ wf.lookup d n = some fid ∧ wf.file fid = some f ∧
+      (f.durable = input ∨ ∃ name0 fl as ml m', World.stdinVerdictA env orc expr input (World.spoolPath env ++ [47] ++ name0) fl as =
+        .actions ml m' ∧ f.durable = (messageWrite m').1) := by
+  obtain ⟨name0, fl, as, _, hfl, hv⟩ := h
+  rcases hall name0 fl as hfl with hf | hd
+  · rw [hf] at hv; exact hv.elim
+  · cases hvd : World.stdinVerdictA env orc expr input (World.spoolPath env ++ [47] ++ name0) fl as with
+    | failed => rw [hvd] at hd; exact hd.elim
+    | unmatched => rw [hvd] at hd; exact hd.elim
+    | actions ml m' =>
+      rw [hvd] at hv hd
+      obtain ⟨d, n, fid, f, h1, h2, h3, h4⟩ := hv hdry hd.1 hd.2.1 hd.2.2
+      refine ⟨d, n, fid, f, h1, h2, h3, ?_⟩
+      simp only [List.mem_cons, List.mem_nil_iff, or_false] at h4
+      rcases h4 with h4 | h4
+      · exact .inl h4
+      · exact .inr ⟨name0, fl, as, ml, m', hvd, h4⟩
 
 /-- T2: under every fault plan, exit status 0 of a stdin run means the message is stored durably
 outside the spool (or no rule matched / the rules do not deliver). -/
@@ -165,22 +202,23 @@ theorem stdin_exit0 (env : PEnv) (orc : EvalOracles) (conf : List ConfBlock) (fi
       simp at this
     | some y =>
       obtain ⟨_, hdone⟩ := hx
-      show World.wp _ ((closeStdin y.2).bind fun _ => Prog.ret (exitStatus env y.1, y.1)) _ w1
+      show World.wp _ ((closeStdin (stdinFuel env) y.2).bind fun fo =>
+        Prog.ret (exitStatus env (orFuel y.1 fo), orFuel y.1 fo)) _ w1
       cases herr : y.1.error with
       | true =>
         refine World.wp_bind_mono World.wp_triv ?_
-        intro _ w2 _ h0
+        intro fo w2 _ h0
         exfalso
-        have := ((exitStatus_stdin env y.1 hm).2.2.1 h0).1
+        have : y.1.error = false := ((exitStatus_stdin env (orFuel y.1 fo) hm).2.2.1 h0).1
         rw [herr] at this
         cases this
       | false =>
         obtain ⟨S, name0, hS, hmd, hk, hobj, hd⟩ := hdone herr
-        obtain ⟨fl, hfl, hv⟩ := hd
+        obtain ⟨fl, as, hfl, hv⟩ := hd
         rw [hmd]
-        refine World.wp_bind_mono (World.DoneV.closeStdin hv hobj) ?_
+        refine World.wp_bind_mono (World.DoneV.closeStdin _ hv hobj) ?_
         intro _ w2 hv2 _
-        exact delivered_of_done hS hk ⟨fl, hfl, hv2⟩
+        exact delivered_of_done hS hk ⟨fl, as, hfl, hv2⟩
   have := (World.wp_sound plan hmain 0).2
   show (runPlan plan (mainP env orc true conf files input) w 0 []).1.1 = 0 →
     Delivered env orc expr input (runPlan plan (mainP env orc true conf files input) w 0 []).2.1
@@ -213,8 +251,8 @@ theorem stdin_spool_removed (env : PEnv) (orc : EvalOracles) (conf : List ConfBl
     obtain ⟨hclean, _⟩ := hhead
     have hw : World.wpN (World.stdinFinish env files (some y))
         (fun _ w' => ∀ q, (w'.dir q).isSome → (w.dir q).isSome) w1 :=
-      World.wpN_bind_mono (f := fun _ => Prog.ret (exitStatus env y.1, y.1)) (World.closeStdin_clean hclean)
-        (fun _ _ h => h)
+      World.wpN_bind_mono (f := fun fo => Prog.ret (exitStatus env (orFuel y.1 fo), orFuel y.1 fo))
+        (World.closeStdin_clean hclean (stdinFuel env) (by simp [stdinFuel])) (fun _ _ h => h.1)
     exact World.wpN_sound plan i1 hplan hw
 
 end Mdsort.Proofs
